@@ -14,9 +14,10 @@ Statements over the byte-level model `S4V.Model.Print` of printers.rs / the prin
   runOut / runAcct    stdout and `summaryprinted` of a whole run (sequence of print events).
 -/
 import S4V.Lemmas.Print
+import S4V.Lemmas.PrintBuf
 
 namespace S4V.Props.PrintSpec
-open S4V.Model.Print S4V.Lemmas.Print
+open S4V.Model.Print S4V.Lemmas.Print S4V.Lemmas.PrintBuf
 
 /-- the bytes of a print call with the escapes taken out -/
 def plainStream (p : Pal) (last : Last) (o : Opts) (m : Msg) : Bytes := plainOf (render p last o m).1
@@ -545,6 +546,292 @@ theorem C19_first_last (sep : Bytes) (evs : List Ev) (hne : evs ≠ []) :
 summary parameter and `runAcct` produces no chunks; in the source every summary update sits under
 `if cli_opt_summary`, writes nothing, and the summary text goes through `eprintln!`. It is
 checked on the real binary (stdout with and without `-s` compared byte for byte). -/
+
+/-! ## C13 — lines split over blocks (`lineparts`)
+
+`hlParts parts b e` is the loop of `print_color_line_highlight_dt!` over the parts of the first
+line of a message; `hlPart` is its body, and `S4V.Gen.Print.hlPartSegs` is the same body
+translated from the source on every run. -/
+
+/-- the hand-written body is the translated one: the five cases, their comparisons, the bounds of
+every `&slice[..]` and the colour of every write (a source change regenerates `hlPartSegs` and
+breaks this proof) -/
+theorem hlPart_matches_source (at_ : Nat) (slice : Bytes) (b e : Nat) :
+    hlPart at_ slice b e = (S4V.Gen.Print.hlPartSegs at_ slice b e).flatMap segOps := by
+  unfold hlPart S4V.Gen.Print.hlPartSegs
+  simp only []
+  split
+  · simp [segOps, specOfNat]
+  · split
+    · simp [segOps, specOfNat]
+    · split
+      · simp [segOps, specOfNat]
+      · split <;> simp [segOps, specOfNat]
+
+/-- C13: whatever the partition of the line and wherever the datetime lies relative to the part
+boundaries, the slices handed to `buffer_write_or_return!` are the line: nothing lost, nothing
+duplicated, order kept. (Holds for every `b ≤ e`, also past the end of the line, and even if a
+part were empty.) -/
+theorem C13_parts_bytes (parts : List Bytes) {b e : Nat} (hbe : b ≤ e) :
+    wrOf (hlParts parts b e) = parts.flatten := by
+  have := tags_hlPartsAt hbe parts 0 none
+  rw [← tagsOf_snd none, hlParts, this, paint_snd]
+
+/-- the bytes a list of tagged bytes has under one spec -/
+def underOf (s : Spec) (ts : List (Option Spec × UInt8)) : Bytes := (ts.filter (fun t => t.1 = some s)).map Prod.snd
+
+/-- C13: every byte of the line is written under the text colour except exactly the bytes
+`[b, e)` of the line, which are written under the datetime colour — byte by byte, in order,
+whatever colour was in force before -/
+theorem C13_parts_dt (parts : List Bytes) {b e : Nat} (hbe : b ≤ e) (cur : Option Spec) :
+    tagsOf cur (hlParts parts b e) =
+      tag .txt (parts.flatten.take b) ++ tag .dt (parts.flatten.extract b e) ++ tag .txt (parts.flatten.drop e) := by
+  rw [hlParts, tags_hlPartsAt hbe parts 0 cur, paint_zero _ hbe]
+
+theorem underOf_append (s : Spec) (a b : List (Option Spec × UInt8)) : underOf s (a ++ b) = underOf s a ++ underOf s b := by
+  simp [underOf]
+
+theorem underOf_tag (s s' : Spec) (x : Bytes) : underOf s (tag s' x) = if s' = s then x else [] := by
+  induction x with
+  | nil => simp [underOf, tag]
+  | cons c r ih =>
+    simp only [underOf, tag, List.map_cons] at *
+    by_cases h : s' = s
+    · simp [h] at *; exact ih
+    · simp [h] at *
+
+/-- … as byte strings: under the datetime colour exactly `line[b..e]`, under the text colour the
+rest, under the default colour nothing -/
+theorem C13_parts_dt_bytes (parts : List Bytes) {b e : Nat} (hbe : b ≤ e) (cur : Option Spec) :
+    underOf .dt (tagsOf cur (hlParts parts b e)) = parts.flatten.extract b e ∧
+    underOf .txt (tagsOf cur (hlParts parts b e)) = parts.flatten.take b ++ parts.flatten.drop e ∧
+    underOf .dflt (tagsOf cur (hlParts parts b e)) = [] := by
+  rw [C13_parts_dt parts hbe cur]
+  simp [underOf_append, underOf_tag]
+
+/-- corollary: a multi-part first line gives the same plain and counted streams as the one-part
+line of the first half of the model, so every C13 theorem above extends to lines split over blocks -/
+theorem hlParts_eq_hlLine (p : Pal) (last : Last) (parts : List Bytes) {b e : Nat} (hbe : b ≤ e) :
+    plainOf (exec p last (hlParts parts b e)).1 = plainOf (exec p last (hlLine parts.flatten b e)).1 ∧
+    dataOf (exec p last (hlParts parts b e)).1 = dataOf (exec p last (hlLine parts.flatten b e)).1 := by
+  simp [exec_plain, exec_data, C13_parts_bytes parts hbe, wrOf_hlLine _ hbe]
+
+/-- … and for non-empty parts (what the line reader builds) the whole byte stream, escapes
+included, and the colour left set are those of the one-part line: the `prt run` rendering of the
+first half of the model is right for lines split over blocks too -/
+theorem hlParts_stream_eq_hlLine (p : Pal) (last : Last) (parts : List Bytes) (hne : ∀ q ∈ parts, q ≠ [])
+    {b e : Nat} (hbe : b ≤ e) :
+    bytesOf (exec p last (hlParts parts b e)).1 = bytesOf (exec p last (hlLine parts.flatten b e)).1 ∧
+    (exec p last (hlParts parts b e)).2 = (exec p last (hlLine parts.flatten b e)).2 :=
+  exec_hlParts_eq_hlLine p last parts hne hbe
+
+/-- the hypotheses are satisfiable: `ab|cdef`, datetime `[1,4)` straddling the boundary -/
+example : (∀ q ∈ [[97, 98], [99, 100, 101, 102]], q ≠ ([] : Bytes)) ∧ 1 ≤ 4 := by decide
+
+/-- the planted defect (`&slice[$dt_end..]` for `&slice[($dt_end - at)..]` in the first case):
+counter-model of the per-part body -/
+def hlPart_bad (at_ : Nat) (slice : Bytes) (b e : Nat) : List Op :=
+  let at_end := at_ + slice.length
+  if at_ ≤ b ∧ e < at_end then
+    wrNE .txt (slice.take (b - at_)) ++ wrNE .dt ((slice.take (e - at_)).drop (b - at_)) ++ wrNE .txt (slice.drop e)
+  else hlPart at_ slice b e
+
+/-- … loses bytes as soon as the datetime lies in a later part: line `ab|cdef`, datetime `[3,4)` -/
+theorem bad_slice_loses_bytes :
+    wrOf (hlPart_bad 0 [97, 98] 3 4 ++ hlPart_bad 2 [99, 100, 101, 102] 3 4) ≠ [97, 98, 99, 100, 101, 102] := by decide
+
+/-! ## C19 — what a print call returns and what it puts on stdout
+
+`printM env F o m d` runs one call of `print_sysline` / `print_fixedstruct` / `print_evtx` /
+`print_journalentry` on the printer's buffer (`Env.code`: `BUFFER_USE`/`BUFFER_CAP` from the
+source) and returns the tuple the coordinator adds to `summaryprinted.bytes` / `.flushed`
+(`Flags.code`: the order of every `Ok((_, _))` and of every `Ok((p, f)) => …`, from the source). -/
+
+theorem runD_snoc_flush (env : Env) (d : Dev) (ms : List MOp) :
+    runD env d (ms ++ [.flush]) = ((flushD (runD env d ms).1).1, (runD env d ms).2 + (flushD (runD env d ms).1).2) := by
+  rw [runD_append]; simp [runD, stepD, cnt_add_zero]
+
+/-- with the tuple orders of the source, every print call is the flat run of its macro calls and
+returns `(printed, flushed)` -/
+theorem printM_code (p : Pal) (o : Opts) (m : MsgP) (d : Dev) :
+    printM (Env.code p) Flags.code o m d =
+      ((runD (Env.code p) d (opsM o m)).1, ((runD (Env.code p) d (opsM o m)).2.printed, (runD (Env.code p) d (opsM o m)).2.flushed)) := by
+  cases m with
+  | sysline s =>
+    obtain ⟨c, f, dt⟩ := o
+    cases c <;> cases f <;> cases dt <;>
+      simp [printM, print_sysline_M, sysNoColorM, flatM, tup, opsM, sysOpsM, ncLoop_flat, runD_snoc_flush, optM,
+        Flags.code, S4V.Gen.Print.retPrintedFirst, S4V.Gen.Print.lineAddStraight, cnt_add_printed, cnt_add_flushed]
+  | fixedstruct b =>
+    obtain ⟨c, f, dt⟩ := o
+    cases c <;> cases f <;> cases dt <;>
+      simp [printM, flatM, tup, retFlag, MsgP.flat, Msg.kind, Flags.code, S4V.Gen.Print.retPrintedFirst]
+  | evtx b =>
+    obtain ⟨c, f, dt⟩ := o
+    cases c <;> cases f <;> cases dt <;>
+      simp [printM, flatM, tup, retFlag, MsgP.flat, Msg.kind, Flags.code, S4V.Gen.Print.retPrintedFirst]
+  | journal b =>
+    obtain ⟨c, f, dt⟩ := o
+    cases c <;> cases f <;> cases dt <;>
+      simp [printM, flatM, tup, retFlag, MsgP.flat, Msg.kind, Flags.code, S4V.Gen.Print.retPrintedFirst]
+
+/-- every print function ends in `buffer_flush_or_return!` or `setcolor_or_return!` -/
+theorem opsM_ends (o : Opts) (m : MsgP) : endsFlushing (opsM o m) = true := by
+  obtain ⟨c, f, dt⟩ := o
+  cases m <;> cases c <;> cases f <;> cases dt <;>
+    simp [opsM, sysOpsM, sysColorOpsM, fixedOpsM, evtxOpsM, journalOpsM, endsFlushing_append, endsFlushing_cons, endsFlushing]
+
+theorem env_code_use (p : Pal) : (Env.code p).use = true := rfl
+
+/-- C19: for every message (any number of lines and parts, any lengths — also far beyond the
+2056-byte buffer), every option set and every colour state, from a printer with an empty buffer:
+the first component of the returned tuple — what the coordinator adds to `Printed bytes` — is
+the number of bytes the call wrote to stdout through `buffer_write_or_return!` (escape bytes are
+written by termcolor and are not counted: finding F6); these bytes are exactly the slices of
+the calls, in order; the buffer is empty again; stdout, escapes included, is what the same calls
+produce without a buffer (the first half of the model), with the same final colour state; the
+second component is the `flushed` count of the macros -/
+theorem C19_printed_eq_written (p : Pal) (last : Last) (o : Opts) (m : MsgP) :
+    let r := printM (Env.code p) Flags.code o m (Dev.fresh last)
+    r.2.1 = (dataOf r.1.out).length ∧
+    r.1.buf = [] ∧
+    dataOf r.1.out = wrOf (erase (opsM o m)) ∧
+    bytesOf r.1.out = bytesOf (exec p last (erase (opsM o m))).1 ∧
+    r.1.last = (exec p last (erase (opsM o m))).2 ∧
+    r.2.2 = (runD (Env.code p) (Dev.fresh last) (opsM o m)).2.flushed := by
+  simp only [printM_code]
+  obtain ⟨h1, h2, h3, h4⟩ := runD_spec (Env.code p) (env_code_use p) (Dev.fresh last) (opsM o m)
+  have hb : (runD (Env.code p) (Dev.fresh last) (opsM o m)).1.buf = [] :=
+    runD_buf_of_ends _ _ _ (opsM_ends o m)
+  have e1 : pend (Dev.fresh last) = [] := rfl
+  have e2 : pdata (Dev.fresh last) = [] := rfl
+  have e3 : (Dev.fresh last).buf = [] := rfl
+  have e4 : (Dev.fresh last).last = last := rfl
+  have e5 : (Env.code p).pal = p := rfl
+  rw [e1, e4, e5] at h1
+  rw [e4, e5] at h2
+  rw [e2] at h3
+  rw [e3] at h4
+  simp only [pend, pdata, hb, List.append_nil, List.nil_append, List.length_nil, Nat.zero_add, Nat.add_zero] at h1 h3 h4
+  refine ⟨?_, hb, h3, h1, h2, trivial⟩
+  rw [h3]; exact h4
+
+/-- the bytes of the calls of the buffer layer are those of the first half of the model for the
+same message with every line as one string: `Printed bytes` of the coordinator model
+(`printedOf`) is what the code returns -/
+theorem wrM_opsM (o : Opts) (m : MsgP) (hs : spanOk m.flat) : wrOf (erase (opsM o m)) = wrOf (ops o m.flat) := by
+  have hcl : ∀ (pre : List MOp) (b e : Nat), b ≤ e → ∀ (first : Bool) (ls : List (List Bytes)),
+      wrM (colorLoopM pre b e first ls) = ls.flatMap (fun l => wrM pre ++ l.flatten) := by
+    intro pre b e hbe first ls
+    induction ls generalizing first with
+    | nil => rfl
+    | cons l r ih =>
+      simp only [colorLoopM, wrM_append, ih, List.flatMap_cons]
+      cases first <;> simp [wrM_withFlush, C13_parts_bytes l hbe, wrM_append, wrM_map_wr]
+  have hpl : ∀ (pre : List MOp) (b e : Nat), b ≤ e → ∀ (at_ : Nat) (ls : List Bytes),
+      wrM (prependColorLoopM pre b e at_ ls) = ls.flatMap (fun l => wrM pre ++ l) := by
+    intro pre b e hbe at_ ls
+    induction ls generalizing at_ with
+    | nil => rfl
+    | cons l r ih =>
+      simp only [prependColorLoopM, wrM_append, ih, List.flatMap_cons, wrM_withFlush, wrOf_hlAt l at_ hbe]
+  obtain ⟨c, f, dt⟩ := o
+  show wrM (opsM ⟨c, f, dt⟩ m) = _
+  cases m with
+  | sysline s =>
+    have hs' : s.dtBeg ≤ s.dtEnd := hs
+    rw [show ops ⟨c, f, dt⟩ (MsgP.sysline s).flat = print_sysline ⟨c, f, dt⟩ s.flat from rfl,
+      wrOf_print_sysline _ _ hs']
+    cases c
+    · simp [opsM, sysOpsM, wrM_append, wrM_flatMap, wrM_optM, wrM_map_wr, decorated, SysMsgP.flat, List.flatMap_map]
+    · cases f <;> cases dt <;>
+        simp [opsM, sysOpsM, sysColorOpsM, wrM_append, hcl _ _ _ hs', wrM_optM, optM, decorated, SysMsgP.flat,
+          List.flatMap_map, optBytes]
+  | fixedstruct b =>
+    have hs' : b.beg ≤ b.fin := hs
+    rw [show ops ⟨c, f, dt⟩ (MsgP.fixedstruct b).flat = print_fixedstruct ⟨c, f, dt⟩ b from rfl,
+      wrOf_print_fixedstruct _ _ hs']
+    cases c <;> cases f <;> cases dt <;>
+      simp [opsM, fixedOpsM, wrM_append, wrM_optM, optM, wrM_withFlush, wrOf_hlBuf _ hs', optBytes]
+  | evtx b =>
+    have hs' : b.beg ≤ b.fin := hs
+    rw [show ops ⟨c, f, dt⟩ (MsgP.evtx b).flat = print_evtx ⟨c, f, dt⟩ b from rfl, wrOf_print_evtx _ _ hs']
+    cases c <;> cases f <;> cases dt <;>
+      simp [opsM, evtxOpsM, wrM_append, wrM_optM, optM, wrM_withFlush, wrOf_hlBuf _ hs', optBytes, plainOpts,
+        wrM_flatMap, hpl _ _ _ hs', decorated]
+  | journal b =>
+    have hs' : b.beg ≤ b.fin := hs
+    rw [show ops ⟨c, f, dt⟩ (MsgP.journal b).flat = print_journalentry ⟨c, f, dt⟩ b from rfl,
+      wrOf_print_journalentry _ _ hs']
+    cases c <;> cases f <;> cases dt <;>
+      simp [opsM, journalOpsM, journalPreM, wrM_append, wrM_optM, optM, wrM_withFlush, wrOf_hlBuf _ hs', optBytes,
+        plainOpts, wrM_flatMap, hpl _ _ _ hs', decorated]
+
+/-- C19: the count a print call returns is the `printedOf` the accounting theorems
+(`C19_total_bytes*`, `C19_per_file`) are stated with -/
+theorem C19_printed_is_printedOf (p : Pal) (last : Last) (o : Opts) (m : MsgP) (hs : spanOk m.flat) :
+    (printM (Env.code p) Flags.code o m (Dev.fresh last)).2.1 = printedOf o m.flat := by
+  obtain ⟨h1, _, h3, _⟩ := C19_printed_eq_written p last o m
+  rw [h1, h3, wrM_opsM o m hs, printedOf]
+
+/-- C19, `--color never`: the returned count is literally the number of bytes the call put on stdout -/
+theorem C19_printed_eq_stdout_nocolor (p : Pal) (last : Last) (o : Opts) (m : MsgP) (hc : o.color = false) :
+    (printM (Env.code p) Flags.code o m (Dev.fresh last)).2.1 =
+      (bytesOf (printM (Env.code p) Flags.code o m (Dev.fresh last)).1.out).length := by
+  obtain ⟨h1, _, h3, h4, _⟩ := C19_printed_eq_written p last o m
+  have hn : noSetc (erase (opsM o m)) = true := by
+    obtain ⟨c, f, dt⟩ := o
+    subst hc
+    have hw : ∀ l : List Bytes, noSetc (erase (l.map MOp.wr)) = true := by
+      intro l; induction l with
+      | nil => rfl
+      | cons x r ih => simpa [erase, noSetc] using ih
+    have hfm : ∀ {α} (g : α → List MOp) (xs : List α), (∀ x, noSetc (erase (g x)) = true) →
+        noSetc (erase (xs.flatMap g)) = true := by
+      intro α g xs hg
+      induction xs with
+      | nil => rfl
+      | cons x r ih => simp [List.flatMap_cons, erase_append, noSetc_append, hg x, ih]
+    cases m <;> cases f <;> cases dt <;>
+      simp [opsM, sysOpsM, fixedOpsM, evtxOpsM, journalOpsM, erase_append, noSetc_append, optM, erase, noSetc] <;>
+      (apply hfm; intro l; simp [erase_append, noSetc_append, erase, noSetc, hw])
+  rw [h1, h4, exec_bytes_noSetc _ _ _ hn, h3]
+
+/-- the tuple orders of the source, except that `print_sysline_prependdate` ends in
+`Ok((flushed, printed))` — the planted defect -/
+def Flags.swapped : Flags :=
+  { Flags.code with ret := { Flags.code.ret with print_sysline_prependdate := false } }
+
+/-- counter-model: with that swap, any 3000-byte one-line message printed with a datetime field
+returns 2 as `printed` (the two flushes: the buffer holding the field, then the oversized line
+written directly) while 3001 bytes went to stdout -/
+theorem swapped_printed_flushed_differs (line : Bytes) (hl : line.length = 3000) :
+    let r := printM (Env.code ⟨[], [], []⟩) Flags.swapped ⟨false, none, some [68]⟩ (.sysline ⟨[[line]], 0, 0⟩) (Dev.fresh none)
+    r.2 = (2, 3001) ∧ (bytesOf r.1.out).length = 3001 ∧ r.2.1 ≠ (bytesOf r.1.out).length := by
+  simp [printM, print_sysline_M, sysNoColorM, ncLoop, print_line_M, runD, stepD, writeD, flushD, Flags.swapped, Flags.code,
+    S4V.Gen.Print.retPrintedFirst, S4V.Gen.Print.lineAddStraight, Env.code, S4V.Gen.Print.BUFFER_USE, S4V.Gen.Print.BUFFER_CAP,
+    Dev.fresh, hl, tup, addRes, cnt_add_def, bytesOf, Chunk.bytes]
+
+/-- … while the code as it is returns (3001, 2) for the same call -/
+theorem unswapped_same_call (line : Bytes) (hl : line.length = 3000) :
+    (printM (Env.code ⟨[], [], []⟩) Flags.code ⟨false, none, some [68]⟩ (.sysline ⟨[[line]], 0, 0⟩) (Dev.fresh none)).2 = (3001, 2) := by
+  simp [printM, print_sysline_M, sysNoColorM, ncLoop, print_line_M, runD, stepD, writeD, flushD, Flags.code,
+    S4V.Gen.Print.retPrintedFirst, S4V.Gen.Print.lineAddStraight, Env.code, S4V.Gen.Print.BUFFER_USE, S4V.Gen.Print.BUFFER_CAP,
+    Dev.fresh, hl, tup, addRes, cnt_add_def]
+
+/-- the hypothesis is satisfiable -/
+example : (List.replicate 3000 (120 : UInt8)).length = 3000 := List.length_replicate ..
+
+/-- the same defect in the other place: `Ok((f, p)) => { printed += p; flushed += f; }` -/
+def Flags.crossed : Flags :=
+  { Flags.code with add := { Flags.code.add with print_sysline_prependdate := false } }
+
+theorem crossed_printed_flushed_differs (line : Bytes) (hl : line.length = 3000) :
+    let r := printM (Env.code ⟨[], [], []⟩) Flags.crossed ⟨false, none, some [68]⟩ (.sysline ⟨[[line]], 0, 0⟩) (Dev.fresh none)
+    r.2.1 ≠ (bytesOf r.1.out).length := by
+  simp [printM, print_sysline_M, sysNoColorM, ncLoop, print_line_M, runD, stepD, writeD, flushD, Flags.crossed, Flags.code,
+    S4V.Gen.Print.retPrintedFirst, S4V.Gen.Print.lineAddStraight, Env.code, S4V.Gen.Print.BUFFER_USE, S4V.Gen.Print.BUFFER_CAP,
+    Dev.fresh, hl, tup, addRes, cnt_add_def, bytesOf, Chunk.bytes]
 
 /-! ### the hypotheses are satisfiable -/
 
